@@ -844,6 +844,26 @@ def _assignment_key(ctx):
            construct='assignment key agreement')
 
 
+def _own_reservation(ctx, priv, merged):
+    """C06.2: an allocation's own queue is scored against its own
+    reservation: every utilisation the private generator computes takes
+    ``self.reserved`` (the merged queue of the tree is what the total
+    reservation is for).  Scored against the total, an allocation with
+    reserving children boosts - and lets past the cap - instances its own
+    reservation does not cover."""
+    calls = [c for c in K.calls(priv.node)
+             if K.callee_text(c).split('.')[-1] == 'utilization' and
+             len(c.args) >= 2]
+    ctx.require(calls, 'utilization(...) in the private queue generator',
+                rule='C06.2', func=priv)
+    for call in calls:
+        got = K.rtxt(priv, call.args[1])
+        ctx.ob('C06.2', priv, call, got == 'self.reserved',
+               'the own queue is scored against the own reservation '
+               '(self.reserved; found %s)' % got,
+               construct='own reservation: %s' % N.txt(call)[:40])
+
+
 def _assignment_pattern(ctx):
     """C06.7: an assignment speaks for the instances of the application it
     names, nothing else: the pattern compiled for it is the recorded pattern
@@ -1103,6 +1123,7 @@ def check(ctx):
     _given_value_kept(ctx, alloc)
     _reload_order(ctx)
     _cumulative(ctx, priv, merged)
+    _own_reservation(ctx, priv, merged)
     _every_load_queues(ctx)
     _assignment_key(ctx)
     _assignment_pattern(ctx)
